@@ -84,7 +84,8 @@ def run(ctx):
         other, odata, _ = zoo.make("linear_diag_src1", seed=3)
         other.fit(odata, "mcmc_saem", n_iter=3, seed=11, progress_bar=False)
         burn_rngs(rnd)
-        evs1, _ = saem.run_config(kind, base_cfg, seed=seed, workdir=w, compare_to=base)
+        ca = info0.get("cohort_attempt", 0)
+        evs1, _ = saem.run_config(kind, base_cfg, seed=seed, workdir=w, compare_to=base, cohort_attempt=ca)
         events += evs1
         ctx.case(key=(kind, "repeat-after-history"))
         # the same algorithm object run twice (annealing on), and settings that travelled through a JSON file, for seeds 0 and 5
@@ -95,10 +96,10 @@ def run(ctx):
             evs_a, info_a = saem.run_config(kind, acfg, seed=sd, workdir=w2, want_params=True)
             events += evs_a
             burn_rngs(rnd)
-            evs_b, _ = saem.run_config(kind, acfg, seed=sd, workdir=w2, compare_to=info_a["params"], reuse_algo=True)
+            evs_b, _ = saem.run_config(kind, acfg, seed=sd, workdir=w2, compare_to=info_a["params"], reuse_algo=True, cohort_attempt=info_a.get("cohort_attempt", 0))
             events += evs_b
             burn_rngs(rnd)
-            evs_c, _ = saem.run_config(kind, acfg, seed=sd, workdir=w2, compare_to=info_a["params"], via_file=True)
+            evs_c, _ = saem.run_config(kind, acfg, seed=sd, workdir=w2, compare_to=info_a["params"], via_file=True, cohort_attempt=info_a.get("cohort_attempt", 0))
             events += evs_c
             ctx.case(key=(kind, "reuse+file", sd))
         # (quick tier: the second kind - a joint model, whose outputs include the survival shifts - gets a third of the configurations)
@@ -106,7 +107,7 @@ def run(ctx):
             c = dict(base_cfg, log=l)
             w = os.path.join(ctx.tmp, f"log_{kind}_{i}")
             os.makedirs(w, exist_ok=True)
-            evs, info = saem.run_config(kind, c, seed=seed, workdir=w, compare_to=base)
+            evs, info = saem.run_config(kind, c, seed=seed, workdir=w, compare_to=base, cohort_attempt=ca)
             events += evs
             ctx.case(key=(kind,) + tuple(sorted(l.items())))
         ok, k, res = saem.validate(events, vars_, params, os.path.join(ctx.tmp, "tr"), f"C11_{kind}")
